@@ -78,7 +78,12 @@ def run(prog, R):
             calls = {x: b.callee_of(b.blocks[x].term) or "" for x in comp if b.blocks[x].term["k"] == "call"}
             bump_blocks = {x for x, c in calls.items() if c == BUMP}
             next_blocks = {x for x, c in calls.items() if c.endswith("::next") and not c.startswith("oq3_") and "<oq3_" not in c.split(" as ")[0]}
-            if b.crate == "oq3_lexer" and fn.startswith("oq3_lexer::") and "unescape" not in fn and bump_blocks:
+            if next_blocks and cycles_pass_through(b, comp, next_blocks):
+                # driven by a std iterator (e.g. the characters of a constant keyword): ends when it is exhausted,
+                # whether or not the cursor is advanced on the way
+                its = sorted(set(calls[x] for x in next_blocks))
+                R.ob("C01.0-loop-class", key, True, at, f"iterator-driven: every cycle passes through {its}")
+            elif b.crate == "oq3_lexer" and fn.startswith("oq3_lexer::") and "unescape" not in fn and bump_blocks:
                 ok = cycles_pass_through(b, comp, bump_blocks)
                 R.ob("C01.1-lexer-progress", key, ok, at, "every cycle of this loop passes through Cursor::bump (one character consumed per iteration)" if ok else "a cycle of this lexer loop avoids Cursor::bump: it may iterate without consuming a character")
                 # EOF exit: from the header, under first()=second()='\\0', is_eof()=true, bump()=None, no path comes back to the header
